@@ -86,7 +86,9 @@ FLOORS = {
 JOBS = 12
 SPEC_TIMEOUT = 900
 CONFIRM_ALONE = ('lost_wakeup', 'waiter_never_returned', 'lock_unavailable',
-                 'round_stuck', 'event_wait_never_returned')
+                 'round_stuck', 'event_wait_never_returned',
+                 'wait_returned_false_before_timeout', 'acquire_false_before_timeout',
+                 'event_wait_false_before_deadline')
 
 BOUND = 60.0          # "eventually" for the harness' own lock acquisitions / drains
 LATE_BOUND = 5.0      # a sleeper that should have been woken gets this long
@@ -431,6 +433,7 @@ class CondWorld(World):
         a[b + PH] = 1
         ac.ev('W_in', ac.gen, timeout, depth)
         t0 = time.monotonic()
+        t0r = time.time()
         try:
             r = c.wait(timeout)
         except BaseException as exc:
@@ -442,7 +445,9 @@ class CondWorld(World):
             except Exception:
                 pass
             return
-        t1 = time.monotonic()
+        # the C semaphore's deadline is on the realtime clock: take the longer
+        # of the two elapsed times so that a clock step is never a violation
+        t1 = max(time.monotonic(), t0 + (time.time() - t0r))
         held = None
         try:
             sl = c._lock._semlock
@@ -1091,6 +1096,7 @@ class EventWorld(World):
         if k == 'final':
             return self.do_final(ac, st)
         arg = st.get('timeout')
+        t0r = time.time()
         t0 = time.monotonic_ns()
         try:
             if k == 'set':
@@ -1109,7 +1115,8 @@ class EventWorld(World):
             ac.ev('E_exc', k, repr(exc), traceback.format_exc()[-1200:])
             return
         t1 = time.monotonic_ns()
-        ac.ev('E', k, arg, t0, t1, r if (r is None or isinstance(r, bool)) else repr(r))
+        ac.ev('E', k, arg, t0, t1, r if (r is None or isinstance(r, bool)) else repr(r),
+              time.time() - t0r)
         ac.a[ac.b + POS] += 1             # progress: steps completed this round
 
     def do_final(self, ac, st):
@@ -1277,7 +1284,7 @@ def judge_event_round(rec, attrs, logs, stuck, meta, init):
             k = e[1]
             if k == 'E':
                 ops.append({'aid': int(aid), 'k': e[2], 'arg': e[3], 'inv': e[4],
-                            'ret': e[5], 'r': e[6]})
+                            'ret': e[5], 'r': e[6], 'rel': e[7] if len(e) > 7 else 0.0})
             elif k == 'E_exc':
                 V('event_op_raised', {'op': e[2]}, exc=e[3], tb=e[4])
             elif k == 'FINAL_to':
@@ -1330,7 +1337,7 @@ def judge_event_round(rec, attrs, logs, stuck, meta, init):
                 lin.append({'k': k, 'lo': o['inv'], 'hi': o['ret'], 'r': True})
                 continue
             rec.count('event_wait_false')
-            elapsed = (o['ret'] - o['inv']) / 1e9
+            elapsed = max((o['ret'] - o['inv']) / 1e9, o['rel'])
             dl = None if to is None else o['inv'] + int(max(to, 0) * 1e9)
             dlx = o['ret'] if dl is None else min(o['ret'], dl - int(EPS * 1e9))
             # the waiter was asleep in the condition (announced) when a set()
@@ -1397,9 +1404,9 @@ def event_sequential(rec, ctx, rng, n_hist):
                     got, want, op = ev.is_set(), flag, 'is_set'
                 else:
                     to = rng.choice([0, 0.0002, 0.001, -1])
-                    t0 = time.monotonic()
+                    t0, t0r = time.monotonic(), time.time()
                     got, want, op = ev.wait(to), flag, 'wait'
-                    el = time.monotonic() - t0
+                    el = max(time.monotonic() - t0, time.time() - t0r)
                     if not flag and to > 0 and el < to - EPS:
                         rec.violation('event_wait_false_before_deadline',
                                       dict(attrs, timed=True), timeout=to, elapsed=el,
@@ -1526,11 +1533,11 @@ class MutexWorld(World):
                     time.sleep(0)
             elif style < 0.9:
                 to = rng.choice([0.0002, 0.001])
-                t0 = time.monotonic()
+                t0, t0r = time.monotonic(), time.time()
                 if obj.acquire(True, to):
                     got = True
                 else:
-                    el = time.monotonic() - t0
+                    el = max(time.monotonic() - t0, time.time() - t0r)
                     tofalse += 1
                     if el < to - EPS:
                         early.append((to, el))
@@ -1619,10 +1626,10 @@ def mutex_probes(rec, ctx, rng):
                 rec.violation('semaphore_refused_within_count', A, n=n, bounded=False)
         if s.acquire(False):
             rec.violation('semaphore_admitted_beyond_count', A, n=n, bounded=False)
-        t0 = time.monotonic()
+        t0, t0r = time.monotonic(), time.time()
         if s.acquire(True, 0.002):
             rec.violation('semaphore_admitted_beyond_count', A, n=n, bounded=False, timed=True)
-        elif time.monotonic() - t0 < 0.002 - EPS:
+        elif max(time.monotonic() - t0, time.time() - t0r) < 0.002 - EPS:
             rec.violation('acquire_false_before_timeout', A, kind='Semaphore')
         for _ in range(n + 2):
             s.release()                    # unbounded: allowed
